@@ -89,6 +89,10 @@ func main() {
 				}
 			}
 			rs := eng.verifyAll(keys, *tier, false, "", "")
+			if err := eng.recordLocals(keys); err != nil {
+				fmt.Fprintln(os.Stderr, err)
+				os.Exit(3)
+			}
 			if err := eng.writeExpected(p, rs); err != nil {
 				fmt.Fprintln(os.Stderr, err)
 				os.Exit(3)
